@@ -495,6 +495,39 @@ def model_pomdp(pc, res):
     return out
 
 
+IP_SIG = "C09:bpi:interior-point-lp-backend:strategy-extraction-amplifies-solver-tolerance"
+IP_BACKENDS = ("cvxpy", "matrix_cvxpy_lp")     # improve_node_cvxpy / Solvers.cvxpy_lp: interior-point LP solutions
+LP_FEAS_TOL = F(1, 10 ** 7)                    # HiGHS primal feasibility 1e-7; CLARABEL / ECOS feasibility 1e-8
+
+
+def rows_off_only_by_lp_tolerance(r):
+    """the node-transition rows are c_{a,o,.}/c_a of an LP point.  True iff every row that is not a distribution is
+    one whose LP variables are fine at the solver's feasibility tolerance: pi[n,a]*(-entry) <= tol and
+    pi[n,a]*|row sum - 1| <= tol (the division by a small action probability c_a amplified the solver's error), and
+    the action rows and the initial node distribution themselves are distributions.  Returns (explained, worst)"""
+    tol7 = F(1, 10 ** 7)
+    worst = None
+    for row in r["pi"] + [r["init"]]:
+        xs = [vlib.frac(x) for x in row]
+        if min(xs) < -tol7 or abs(sum(xs) - 1) > tol7:
+            return False, {"row": "action / initial row itself invalid", "values": [float(x) for x in xs]}
+    for n, blk in enumerate(r["om"]):
+        for a, ab in enumerate(blk):
+            ca = abs(vlib.frac(r["pi"][n][a]))
+            for o, row in enumerate(ab):
+                xs = [vlib.frac(x) for x in row]
+                dev = max([-min(xs), abs(sum(xs) - 1)])
+                if dev <= tol7:
+                    continue
+                if ca * dev > LP_FEAS_TOL:
+                    return False, {"node": n, "action": a, "observation": o, "row": [float(x) for x in xs],
+                                   "action_probability": float(ca), "deviation": float(dev), "joint_error": float(ca * dev)}
+                if worst is None or dev > worst["deviation"]:
+                    worst = {"node": n, "action": a, "observation": o, "row": [float(x) for x in xs],
+                             "action_probability": float(ca), "deviation": float(dev), "joint_error": float(ca * dev)}
+    return worst is not None, worst
+
+
 def check_runs(case, res, pc, init):
     """conformance of real run_on executions to the episode convention of the model (position space);
     init = the controller's initial node distribution as exact doubles"""
@@ -611,6 +644,17 @@ def run(ctx):
             learner = case["kind"]
             r = res["result"]
             if "error" in r:
+                tr_ = r.get("trace") or ""
+                frames = [ln for ln in tr_.splitlines() if ln.strip().startswith("File ")]
+                if (learner == "bpi" and case.get("improve_fn") in IP_BACKENDS and r["error"].startswith("AssertionError")
+                        and frames and "fscboundedpolicyiteration.py" in frames[-1]):
+                    # one of BPI's OWN numerical assertions (row sums after observation_strategy = canz / c_a, strict value
+                    # improvement after an accepted step, escape-node value) fired on an interior-point LP solution.
+                    # An assertion raised anywhere else (e.g. the evaluator's input checks) keeps the generic signature.
+                    report(IP_SIG, {"case": case, "manifestation": "bounded policy iteration raises one of its own numerical assertions",
+                                    "assertion": tr_.strip().splitlines()[-2].strip() if tr_.strip() else None, "error": r["error"],
+                                    "trace": tr_, "clause": "the learner must always return a (valid) controller"}, found=True)
+                    continue
                 report("C09:%s:raises:%s" % (learner, r["error"].split(":")[0]),
                        {"case": case, "error": r["error"], "trace": r.get("trace"),
                         "clause": "the learner must always return a controller"}, found=True)
@@ -807,7 +851,15 @@ def run(ctx):
                 report("C09:harness:generated-case-illformed", {"case": case, "flags": fl_}, found=False)
                 continue
             if not fl_["rows_valid"]:
-                report("C09:%s:returned-controller-row-not-a-distribution" % learner, {"case": case, "result": r, "tolerance": str(extra["rtol"])}, found=True)
+                explained, worst_row = rows_off_only_by_lp_tolerance(r) if learner == "bpi" else (False, None)
+                if explained and case.get("improve_fn") in IP_BACKENDS:
+                    # same tolerance as everywhere (1e-7): the rows ARE off; named separately because the mechanism is specific
+                    report(IP_SIG, {"case": case, "manifestation": "returned node-transition row is not a distribution", "worst_row": worst_row,
+                                    "result": r, "tolerance": str(extra["rtol"]), "lp_feasibility_tolerance": str(LP_FEAS_TOL),
+                                    "clause": "every node-transition row of the returned controller is a probability distribution"}, found=True)
+                else:
+                    report("C09:%s:returned-controller-row-not-a-distribution" % learner, {"case": case, "result": r, "worst_row": worst_row,
+                                                                                           "tolerance": str(extra["rtol"])}, found=True)
             if not fl_["value_ok"]:
                 report("C09:%s:reported-value-not-init-V-s0" % learner, {"case": case, "result": r}, found=True)
             if fl_["rows_valid"] and not (fl_["bounded"] and fl_["contraction"]):
